@@ -24,6 +24,17 @@
 (*                   Total      Dec is defined (ok or one of two errors)   *)
 (*                              on every byte string (by construction; the *)
 (*                              binding checks the real decoder against it)*)
+(*                                                                         *)
+(* HISTORIES (second part, HistSpec): the codec is stateless BY DESIGN, and *)
+(* that is a property of its own: an encoding handed to a caller belongs   *)
+(* to the caller.  `kept` is the sequence of encodings returned so far and *)
+(* still held (each with the abstract value it encodes and the memory it   *)
+(* lives in); HEncodeValue / HEncodeList / HEncodeBigInt / HEncodePar (two *)
+(* goroutines) append to it, HDecode / HCompare read from it, HRelease     *)
+(* drops one.  Stable: after EVERY action every retained encoding is still *)
+(* Enc(its value) and still decodes to its value.  The named deviation     *)
+(* SinkReuse models an encoder whose scratch sink is recycled although the *)
+(* returned slice aliases it (then Stable is violated, CrossVM_C25hneg.cfg)*)
 (***************************************************************************)
 EXTENDS Integers, Sequences, FiniteSets, TLC
 
@@ -33,12 +44,19 @@ CONSTANTS WideSizes,  \* element counts of the wide lists (around MAX_PARAM_LENG
           AtomsDeep,  \* atoms used inside depth-3 lists
           MaxLen,     \* maximal list length enumerated
           MaxNest,    \* deepest chain of singleton lists enumerated
-          Repl        \* replacement bytes for the single-byte mutations
+          Repl,       \* replacement bytes for the single-byte mutations
+          HistValues, \* values encoded in the histories of codec calls with retained results
+          ParValues,  \* values encoded by the two concurrent goroutines of HEncodePar
+          MaxKept,    \* at most this many encodings are held by the caller at a time
+          SinkReuse   \* deviation: EncodeValue returns a slice of a recycled (pooled) scratch sink
 
 VARIABLES phase,   \* constant "run": the codec is stateless, every case is a self-loop
-          act      \* the case executed last, with its results (history variable, not in the VIEW)
-vars == <<phase, act>>
+          act,     \* the case executed last, with its results (history variable, not in the VIEW)
+          kept     \* the encodings returned so far and still held: <<[v, bs, buf]>>; buf = 0 memory of
+                   \* its own, buf = 1 the recycled scratch buffer (only under SinkReuse)
+vars == <<phase, act, kept>>
 view == <<phase>>
+hview == <<phase, kept>>
 
 HUGE == 1073741824     \* 2^30: stands for every u32 >= 2^30 (TLC integers are 32-bit)
 
@@ -127,12 +145,12 @@ NotifyDec(bs) == IF ~StartsWith(bs, EVT) THEN ErrFormat(0) ELSE Dec(DropN(bs, 4)
 
 (******************************** cases *************************************)
 Case(name, kind, bs, r) ==
-    phase' = phase /\
+    phase' = phase /\ kept' = kept /\
     act' = [name |-> name, kind |-> kind, in |-> bs, res |-> r.r, val |-> r.v, used |-> r.off,
             reenc |-> IF r.r = "ok" THEN Enc(r.v) ELSE <<>>]
 
 \* EncodeValue(v), then DecodeValue of the result
-EncodeCase(v) == phase' = phase /\
+EncodeCase(v) == phase' = phase /\ kept' = kept /\
                  act' = [name |-> "Encode", kind |-> "value", val |-> v, out |-> Enc(v),
                          res |-> Decode(Enc(v)).r, back |-> Decode(Enc(v)).v, used |-> Decode(Enc(v)).off]
 
@@ -146,7 +164,7 @@ DecodeTrail(v, x) == LET bs == Enc(v) \o <<x>> IN Case("Decode", "trail", bs, De
 CallCase(v, p) == LET bs == p \o Enc(v) IN Case("Call", IF p = <<0>> THEN "goodprefix" ELSE "badprefix", bs, CallDec(bs))
 NotifyCase(v, p) == LET bs == p \o Enc(v) IN Case("Notify", IF p = EVT THEN "goodprefix" ELSE "badprefix", bs, NotifyDec(bs))
 
-Init == phase = "run" /\ act = [name |-> "Init"]
+Init == phase = "run" /\ act = [name |-> "Init"] /\ kept = <<>>
 Next == \/ \E v \in Values \cup WideValues : EncodeCase(v)
         \/ \E v \in Subjects : \E i \in 1..Len(Enc(v)) : \E x \in Repl \cup {(Enc(v)[i] + 1) % 256} : x # Enc(v)[i] /\ DecodeByte(v, i, x)
         \/ \E v \in Subjects : \E i \in 0..(Len(Enc(v)) - 1) : DecodeTrunc(v, i)
@@ -155,6 +173,58 @@ Next == \/ \E v \in Values \cup WideValues : EncodeCase(v)
         \/ \E v \in Subjects : \E p \in {<<0>>, <<1>>, <<>>, <<0, 0>>} : CallCase(v, p)
         \/ \E v \in Subjects : \E p \in {EVT, <<101, 118, 116, 1>>, <<>>, <<101, 118, 116>>} : NotifyCase(v, p)
 Spec == Init /\ [][Next]_vars
+
+(************************ histories of codec calls **************************)
+\* One action per public call on the codec, applied to a caller that KEEPS what it was given.
+\* EncodeValue allocates its sink (design); EncodeList / EncodeBigInt write into a sink of the caller
+\* (a fresh one per call here), so what they return is memory of the caller in every variant.
+Held(v, b) == [v |-> v, bs |-> Enc(v), buf |-> b]
+\* deviation SinkReuse: the scratch buffer is written again from its start; every encoding still
+\* aliasing it changes under its holder (its first Len(new) bytes; the buffer is assumed big enough)
+Over(old, new) == [j \in 1..Len(old) |-> IF j <= Len(new) THEN new[j] ELSE old[j]]
+Clobber(k, new) == IF SinkReuse THEN [i \in 1..Len(k) |-> IF k[i].buf = 1 THEN [k[i] EXCEPT !.bs = Over(k[i].bs, new)] ELSE k[i]]
+                   ELSE k
+ValueBuf == IF SinkReuse THEN 1 ELSE 0
+Without(k, i) == SubSeq(k, 1, i - 1) \o SubSeq(k, i + 1, Len(k))
+
+HEncodeValue(v) == /\ Len(kept) < MaxKept                      \* EncodeValue(v); the result is kept
+                   /\ kept' = Append(Clobber(kept, Enc(v)), Held(v, ValueBuf))
+                   /\ act' = [name |-> "EncodeValue", val |-> v, out |-> Enc(v)]
+                   /\ phase' = phase
+HEncodeList(v) == /\ Len(kept) < MaxKept /\ v.t = "list"       \* EncodeList(NewZeroCopySink(nil), v); sink.Bytes() is kept
+                  /\ kept' = Append(kept, Held(v, 0))
+                  /\ act' = [name |-> "EncodeList", val |-> v, out |-> Enc(v)]
+                  /\ phase' = phase
+HEncodeBigInt(v) == /\ Len(kept) < MaxKept /\ v.t = "int"      \* EncodeBigInt(NewZeroCopySink(nil), v); sink.Bytes() is kept
+                    /\ kept' = Append(kept, Held(v, 0))
+                    /\ act' = [name |-> "EncodeBigInt", val |-> v, out |-> Enc(v)]
+                    /\ phase' = phase
+\* two goroutines call EncodeValue at the same time, both results are kept (first goroutine's first).
+\* Design: the calls share nothing, so the outcome is that of the two calls in any order.  Under SinkReuse
+\* only the order "first goroutine first" is modelled (it is bad enough).
+HEncodePar(v1, v2) == /\ Len(kept) + 2 <= MaxKept
+                      /\ LET k1 == Append(Clobber(kept, Enc(v1)), Held(v1, ValueBuf))
+                         IN kept' = Append(Clobber(k1, Enc(v2)), Held(v2, ValueBuf))
+                      /\ act' = [name |-> "EncodePar", val |-> v1, val2 |-> v2, out |-> Enc(v1), out2 |-> Enc(v2)]
+                      /\ phase' = phase
+\* DecodeValue on the i-th retained encoding (decode afterwards, not right after the encode)
+HDecode(i) == /\ i \in 1..Len(kept)
+              /\ act' = [name |-> "Decode", i |-> i, res |-> Decode(kept[i].bs).r, back |-> Decode(kept[i].bs).v,
+                         used |-> Decode(kept[i].bs).off]
+              /\ kept' = kept /\ phase' = phase
+\* the caller compares an encoding it kept with a later one (e.g. to detect a changed parameter)
+HCompare(i, j) == /\ i \in 1..Len(kept) /\ j \in 1..Len(kept) /\ i < j
+                  /\ act' = [name |-> "Compare", i |-> i, j |-> j, eq |-> (kept[i].bs = kept[j].bs)]
+                  /\ kept' = kept /\ phase' = phase
+\* the caller drops the i-th retained encoding
+HRelease(i) == /\ i \in 1..Len(kept)
+               /\ act' = [name |-> "Release", i |-> i]
+               /\ kept' = Without(kept, i) /\ phase' = phase
+
+HistNext == \/ \E v \in HistValues : HEncodeValue(v) \/ HEncodeList(v) \/ HEncodeBigInt(v)
+            \/ \E v1 \in ParValues : \E v2 \in ParValues : HEncodePar(v1, v2)
+            \/ \E i \in 1..MaxKept : HDecode(i) \/ HRelease(i) \/ \E j \in 1..MaxKept : HCompare(i, j)
+HistSpec == Init /\ [][HistNext]_vars
 
 (****************************** properties **********************************)
 \* C25: values encode and decode back to equal values (and the decoder consumes exactly the encoding)
@@ -171,5 +241,17 @@ WrapperOK == [][/\ (act'.name = "Call" /\ act'.res = "ok" => StartsWith(act'.in,
 \* an announced length / count of 2^32-1 at the top level is never accepted
 CountOK == [][act'.name = "Decode" /\ Len(act'.in) >= 5 /\ act'.in[1] \in {0, 1, 16}
                  /\ SubSeq(act'.in, 2, 5) = <<255, 255, 255, 255>> => act'.res # "ok"]_vars
+\* C25 on histories: whatever codec calls follow, every encoding a caller still holds is byte for byte
+\* the encoding of its value and decodes back to exactly that value
+Stable == \A i \in 1..Len(kept) : /\ kept[i].bs = Enc(kept[i].v)
+                                  /\ Decode(kept[i].bs) = Ok(kept[i].v, Len(kept[i].bs))
+\* a later decode of a retained encoding gives the value that was encoded then
+DecodeLater == [][act'.name = "Decode" /\ act'.i \in 1..Len(kept) =>
+                     act'.res = "ok" /\ act'.back = kept[act'.i].v /\ act'.used = Len(Enc(kept[act'.i].v))]_vars
+\* retained encodings are equal exactly when their values are (no two values share an encoding)
+CompareOK == [][act'.name = "Compare" => (act'.eq <=> kept[act'.i].v = kept[act'.j].v)]_vars
+\* no codec call touches an encoding returned earlier
+Untouched == [][act'.name = "Release" \/ \A i \in 1..Len(kept) : i <= Len(kept') /\ kept'[i] = kept[i]]_vars
 State == [phase |-> phase]
+HState == [phase |-> phase, kept |-> [i \in 1..Len(kept) |-> [v |-> kept[i].v, bs |-> kept[i].bs, buf |-> kept[i].buf]]]
 =============================================================================
